@@ -29,7 +29,7 @@ func Gen() *rapid.Generator[Case] {
 		var c Case
 		c.Comp = rapid.IntRange(0, 3).Draw(t, "comp")
 		c.WBuf = rapid.SampledFrom([]int{1, 7, 64, 4096}).Draw(t, "wbuf")
-		c.RBuf = rapid.SampledFrom([]int{4, 7, 64, 4096}).Draw(t, "rbuf")
+		c.RBuf = rapid.SampledFrom([]int{1, 2, 4, 7, 64, 4096}).Draw(t, "rbuf")
 		n := rapid.IntRange(1, 12).Draw(t, "n")
 		maxLen := 150
 		if rapid.IntRange(0, 7).Draw(t, "long") == 0 {
